@@ -134,12 +134,21 @@ if "slices" in req:
 
 
 # ---------------------------------------------------------------- full resamplers
-def build_geo(spec):
+def build_geo(spec, cover=None):
     from pyresample.geometry import AreaDefinition, SwathDefinition
     from pyproj import Proj
     if spec["kind"] == "area":
         h, w = spec["shape"]
         return AreaDefinition("a", "a", "a", spec["proj"], w, h, tuple(spec["extent"]))
+    if spec["kind"] == "cover":
+        # a regular grid (AreaDefinition) in another projection that covers the given area plus a margin
+        h, w = spec["shape"]
+        lons, lats = cover.get_lonlats()
+        x, y = Proj(spec["proj"])(np.asarray(lons).ravel(), np.asarray(lats).ravel())
+        x, y = x[np.isfinite(x)], y[np.isfinite(y)]
+        mx, my = spec["margin"] * (x.max() - x.min()), spec["margin"] * (y.max() - y.min())
+        return AreaDefinition("a", "a", "a", spec["proj"], w, h,
+                              (float(x.min() - mx), float(y.min() - my), float(x.max() + mx), float(y.max() + my)))
     # swath: a lattice in the coordinates of a base projection, mapped by an affine transform, jittered, inverse-projected
     h, w = spec["shape"]
     p = Proj(spec["proj"])
@@ -191,8 +200,8 @@ if "resample" in req:
     for c in req["resample"]:
         r = {}
         try:
-            src = build_geo(c["source"])
             tgt = build_geo(c["target"])
+            src = build_geo(c["source"], tgt)
             kw = dict(neighbours=c["neighbours"], reduce_data=bool(c.get("reduce_data", False)))
             lons, lats = src.get_lonlats()
             lons = np.asarray(lons, dtype=np.float64)
@@ -220,6 +229,19 @@ if "resample" in req:
                 stack = np.stack([fl["const"], fl["affine"], fl["random"]])     # (3, y, x): "bands first"
                 r["np"]["stack"] = jl(np.moveaxis(np.asarray(
                     rn.get_sample_from_bil_info(stack.copy(), fill_value=np.nan)), -1, 0))
+                # the neighbour tables the pipeline works on (kd-tree and PROJ are oracles for the model): same calls, same
+                # order as BilinearBase.get_bil_info
+                if c.get("pixel_sample"):
+                    r2 = NumpyBilinearResampler(src, tgt, c["radius"], **kw)
+                    r2._get_valid_input_index_and_kdtree()
+                    if r2._resample_kdtree is not None:
+                        r2._target_lons, r2._target_lats = tgt.get_lonlats()
+                        r2._get_index_array()
+                        in_x, in_y = r2._get_input_xy()
+                        r["nb_x"], r["nb_y"] = jl(in_x), jl(in_y)
+                        r["nb_i"] = np.asarray(r2._index_array).astype(int).ravel().tolist()
+                        r["valid_out"] = np.flatnonzero(r2._valid_output_indices).astype(int).tolist()
+                        r["valid_data_random"] = jl(fl["random"].ravel()[np.asarray(r2._valid_input_index)])
                 # one-call API as well
                 r["np"]["resample_api"] = jl(NumpyBilinearResampler(src, tgt, c["radius"], **kw).resample(
                     fl["random"].copy(), fill_value=np.nan))
